@@ -151,6 +151,10 @@ class Runtime:
 
     def finalize_log(self) -> List[dict]:
         """Translate raw ids of the in-progress view into model keys."""
+        import inspect as _inspect
+        for x in self.keepalive:
+            if _inspect.iscoroutine(x):
+                x.close()
         for ev in self.log:
             ip = ev["ip"]
             if ip == "n/a":
